@@ -10,7 +10,7 @@
      spec_*         "for each chromosome the single-contig kernel on that chromosome's entries alone"
      model_*        the code's algorithm in concatenated coordinates *)
 From Coq Require Import ZArith List Bool Permutation Sorted Lia.
-From BNP Require Import Base.Prims Model.C10 Corr.C10 Proofs.C10 Proofs.C10_b Proofs.C10_c Proofs.C10_d Proofs.C10_e Proofs.C10_f Gen.C10 Bridge.C10.
+From BNP Require Import Base.Prims Model.C10 Corr.C10 Proofs.C10 Proofs.C10_b Proofs.C10_c Proofs.C10_d Proofs.C10_e Proofs.C10_f Proofs.C10_g Gen.C10 Bridge.C10.
 Import ListNotations.
 Open Scope Z_scope.
 
@@ -80,6 +80,42 @@ Theorem C10_mask_local : forall szs es, nonneg szs -> Forall (entry_placed szs) 
   model_mask szs es = RArrays (spec_mask szs es).
 Proof. exact mask_local. Qed.
 Print Assumptions C10_mask_local.
+
+(* T2r  the BedGraph / Interval view of a genome-wide array (GenomicArrayGlobal.get_data(), behind
+   GenomicIntervals.from_track(track) and GenomicSequence[mask]), for the pileup, the mask and ~mask: the global track
+   cut at the offsets is chromosome by chromosome the single-contig result on that chromosome's own entries, so the rows
+   are, for EVERY chromosome (also one without entries: one run of 0; also one covered completely), the maximal runs
+   of its own array — any number of chromosomes, any sizes *)
+Theorem C10_track_local : forall k szs es, nonneg szs -> Forall (entry_placed szs) es ->
+  split_chroms szs (global_track k szs es) = spec_track k szs es.
+Proof. exact track_local. Qed.
+Print Assumptions C10_track_local.
+Theorem C10_runs_local : forall k szs es, nonneg szs -> Forall (entry_placed szs) es ->
+  model_runs k szs es = RRows (spec_runs k szs es).
+Proof. exact runs_local. Qed.
+Print Assumptions C10_runs_local.
+(* ... and no chromosome's part depends on the entries of another chromosome *)
+Theorem C10_runs_depend_on_own_entries : forall k szs es es', nonneg szs ->
+  Forall (entry_placed szs) es -> Forall (entry_placed szs) es' ->
+  (forall c, 0 <= c < len szs -> on_chr es c = on_chr es' c) ->
+  forall c, 0 <= c < len szs ->
+  nthd [] (split_chroms szs (global_track k szs es)) c = nthd [] (split_chroms szs (global_track k szs es')) c.
+Proof. exact runs_depend_on_own_entries. Qed.
+Print Assumptions C10_runs_depend_on_own_entries.
+(* non-vacuity: {3, 2, 4}, an interval to the end of chromosome 0 and one from position 0 of chromosome 2; chromosome 1
+   has no entries and lies inside one run of zeros of the concatenated pileup — it still gets its row (1, 0, 2, 0) *)
+Example C10_runs_nonvacuous :
+  let szs := [3; 2; 4] in let es := [mk 0 0 2; mk 2 1 4] in
+  nonneg szs /\ Forall (entry_placed szs) es
+  /\ global_track TPileup szs es = [1; 1; 0; 0; 0; 0; 1; 1; 1]
+  /\ model_runs TPileup szs es = RRows [[0; 0; 2; 1]; [0; 2; 3; 0]; [1; 0; 2; 0]; [2; 0; 1; 0]; [2; 1; 4; 1]]
+  /\ model_runs TNotMask szs es = RRows [[0; 2; 3; 1]; [1; 0; 2; 1]; [2; 0; 1; 1]]
+  /\ model_runs TMask [3; 2; 4] [mk 0 1 3; mk 1 0 2; mk 2 0 1] = RRows [[0; 1; 3; 1]; [1; 0; 2; 1]; [2; 0; 1; 1]].
+Proof.
+  cbv zeta. split; [repeat constructor; lia|]. split.
+  { repeat constructor; unfold size_of, nthZ, len; simpl; lia. }
+  vm_compute. repeat split; reflexivity.
+Qed.
 
 (* ... and the hypothesis 0 <= start is needed by the pinned bounds checks: they let a negative start
    through and it is counted on the previous chromosome.  With the check of fix-2 it is refused. *)
